@@ -104,9 +104,80 @@ def generate(weaken, variant, maxcrash, maxview, cap=180, invs=None):
             "note": "counterexample of the WEAKENED specification; on the faithful code this schedule must not violate anything"}
 
 
+# Directed schedules (MC_Guided.tla): key -> (weaken, script operator, validators, weights operator, weights, maxview, invariant)
+GUIDED = {
+    "high_vote_keeps_older_same_number@agreement_u6": ("high_vote_keeps_older_same_number", "StaleHighVoteU6", 6, "W111111", [1] * 6, 4, "Agreement"),
+}
+
+
+def generate_guided(key):
+    weaken, script, n, wop, weights, maxview, inv = GUIDED[key]
+    d = os.path.join(common.OUT, "attacks")
+    os.makedirs(d, exist_ok=True)
+    vs = "{" + ",".join(str(i) for i in range(1, n + 1)) + "}"
+
+    def cfg(w):
+        return f'''CONSTANTS
+  Validators = {vs}
+  Weight <- {wop}
+  Correct = {vs}
+  Faulty = {{}}
+  Payloads = {{"p","q"}}
+  BadPayloads = {{}}
+  Weaken = "{w}"
+  MaxView = {maxview}
+  ViewCap = {maxview}
+  HonestPayloads <- Alternating
+  EnableLeaderNV = FALSE
+  MaxCrash = 0
+  MaxBlocks = 2
+  Script <- {script}
+INIT GInit
+NEXT GNext
+VIEW GView
+INVARIANTS {inv}
+CHECK_DEADLOCK FALSE
+'''
+    cfgname = f"MC_guided_{script}.cfg"
+    cfgpath = os.path.join(common.SPECS, "bft", cfgname)
+    dump = os.path.join(d, f"guided_{script}.json")
+    try:
+        # the faithful specification must survive the same script (otherwise the script shows nothing)
+        with open(cfgpath, "w") as f:
+            f.write(cfg("none"))
+        r0 = common.tlc("bft", "MC_Guided", cfg=cfgname, workers=4, timeout=600, xmx="8g")
+        if r0.violated:
+            raise common.ToolError(f"guided script {script}: the FAITHFUL specification violates {r0.violated} - needs triage")
+        with open(cfgpath, "w") as f:
+            f.write(cfg(weaken))
+        if os.path.exists(dump):
+            os.remove(dump)
+        r = common.tlc("bft", "MC_Guided", cfg=cfgname, workers=4, timeout=600, xmx="8g", dump_trace=dump)
+    finally:
+        os.remove(cfgpath)
+    if not r.violated or not os.path.exists(dump):
+        return None
+    ce = json.load(open(dump))["counterexample"]["state"]
+    acts = [s[1]["lastAct"] for s in ce if s[1]["lastAct"]["a"] != "init"]
+    return {"weaken": weaken, "violates": r.violated, "variant": script, "config": {"weights": weights, "faulty": []},
+            "init": "view1", "acts": acts, "suffix": True, "spec_states_to_find": r.distinct,
+            "note": "DIRECTED schedule (MC_Guided.tla): the script fixes which action happens at which replica, TLC checks it is a behaviour of the WEAKENED "
+                    "specification violating the invariant (and that the faithful specification survives the same script); on the faithful code it must not violate anything"}
+
+
 def regen():
     os.makedirs(SCEN_DIR, exist_ok=True)
     found = 0
+    for key in GUIDED:
+        got = generate_guided(key)
+        path = os.path.join(SCEN_DIR, f"attack_{key.replace('@', '_')}.json")
+        if got:
+            with open(path, "w") as f:
+                json.dump(got, f, indent=1)
+            found += 1
+            log(f"[regen] guided {key}: {got['violates']} violated with {len(got['acts'])} actions")
+        else:
+            log(f"[regen] guided {key}: no counterexample (no scenario written)")
     for key, tries in CATALOGUE.items():
         weaken = key.split("@")[0]
         got = None
